@@ -30,7 +30,13 @@ def main():
                 r = subprocess.run(["go", "test", "-vet=off", "-count=1", pkg], cwd=tmp, env=ENV, capture_output=True, text=True)
                 if r.returncode != 0:
                     return (m, "BROKEN-MUTANT: go test fails", r.stdout[-500:])
-            r = subprocess.run([os.path.join(V, "bin", "govc"), "verify", "-t", "8000"] + m["funcs"], env=dict(ENV, GOVC_REPO=tmp), capture_output=True, text=True)
+            env = dict(ENV, GOVC_REPO=tmp)
+            tmo = "8000"
+            if m.get("thorough"):
+                # the function is verified in the thorough tier only (obligations of up to a minute)
+                env["GOVC_THOROUGH"] = "1"
+                tmo = "45000"
+            r = subprocess.run([os.path.join(V, "bin", "govc"), "verify", "-t", tmo] + m["funcs"], env=env, capture_output=True, text=True)
             if "load:" in r.stderr or "load:" in r.stdout:
                 return (m, "BROKEN-MUTANT: does not load", (r.stderr + r.stdout)[-300:])
             fails = [l for l in r.stdout.splitlines() if l.startswith("FAIL") or " ERROR " in l]
